@@ -30,7 +30,7 @@ STRUCTURAL = ("open", "close", "init")
 
 
 def alphabet(kind="full", init_enum=False):
-    per = {"full": PER_NAME_FULL, "reduced": PER_NAME_REDUCED, "core": PER_NAME_CORE}[kind]
+    per = {"full": PER_NAME_FULL, "reduced": PER_NAME_REDUCED, "core": PER_NAME_CORE}[kind.partition("@")[0]]
     evs = [(k, n) for k in per for n in NAMES]
     evs += [(k, None) for k in (STRUCTURAL if kind != "core" else ("open", "close"))]
     if init_enum:
@@ -173,13 +173,26 @@ def apply(st, ev, typedef_labels=False):
     raise KeyError(k)
 
 
+# Alternative spellings of the same events (same scope semantics, other
+# specifier / declarator shapes); selected per task by the check.
+SPELLING = 0
+SPELLINGS = {
+    0: {"td": "typedef int %(n)s ;", "obj": "int %(n)s ;"},
+    1: {"td": "typedef struct { int m ; } %(n)s ;", "obj": "struct { int m ; } %(n)s = { 1 } ;"},
+    2: {"td": "typedef int * %(n)s [ 2 ] ;", "obj": "unsigned long * %(n)s [ 2 ] ;"},
+    3: {"td": "typedef enum Z%(i)d %(n)s ;", "obj": "struct Z * %(n)s , * * w%(i)d ;"},
+    4: {"td": "typedef int ( %(n)s ) ;", "obj": "struct Z ( * %(n)s ) = 0 , w%(i)d ;"},
+}
+
+
 def text(ev, idx):
     """C text of the event; idx (position in the history) makes helper names
     unique."""
     k, n = ev
+    sp = SPELLINGS[SPELLING]
     return {
-        "td": "typedef int %s ;" % n,
-        "obj": "int %s ;" % n,
+        "td": sp["td"] % {"n": n, "i": idx},
+        "obj": sp["obj"] % {"n": n, "i": idx},
         "self": "%s %s ;" % (n, n),
         "fn": "int %s ( void ) ;" % n,
         "enum": "enum { %s } ;" % n,
